@@ -1,13 +1,16 @@
 #!/bin/bash
-# tools/trymut.sh <patch.diff> <id> [tier]  — apply a seeded change to /repo, run one check, undo the change.
+# tools/trymut.sh <patch.diff> <id> [tier]  — try a seeded change against one check WITHOUT touching /repo: the patch is
+# applied in a scratch worktree and mapped over /repo with go build -overlay; afterwards the binary is rebuilt from /repo.
 set -u
 patch="$(readlink -f "$1")"; id="$2"; tier="${3:-quick}"
 cd /verif
-if ! git -C /repo diff --quiet; then echo "/repo is dirty" >&2; exit 9; fi
-git -C /repo apply "$patch" || { echo "patch does not apply" >&2; exit 9; }
-timeout ${MUT_TIMEOUT:-1500} ./run "$id" "$tier" 2>&1 | grep -v '^  ' | tail -${TAIL:-8}
+wt=/tmp/trymut.$$
+git -C /repo worktree add --detach -f "$wt" HEAD -q || exit 9
+trap 'cd /; git -C /repo worktree remove --force "$wt" 2>/dev/null; git -C /repo worktree prune' EXIT
+git -C "$wt" apply "$patch" || { echo "patch does not apply" >&2; exit 9; }
+VERIF_ALT_ROOT="$wt" timeout ${MUT_TIMEOUT:-1500} ./run "$id" "$tier" 2>&1 | grep -v '^   ' | cut -c1-${WIDTH:-260} | tail -${TAIL:-12}
 rc=${PIPESTATUS[0]}
-git -C /repo checkout -- . ; git -C /repo clean -fdq
 git -C /verif checkout -- evidence 2>/dev/null
+./build.sh >/dev/null 2>&1
 echo "exit=$rc"
 exit $rc
